@@ -1,13 +1,14 @@
 """C13 - filtering and exporting an on-disk tree is consistent and closed
 (from_disk.Directory.from_disk with ignore_empty_directories / ignore_named_directories /
-max_content_length, merkle.iter_tree, from_disk.iter_directory, Content.to_model)."""
+ignore_directories_patterns / max_content_length, merkle.iter_tree, from_disk.iter_directory, Content.to_model)."""
 import copy
 import hashlib
 import os
 import shutil
 import tempfile
+import warnings
 
-from .core import exc_class, hx
+from .core import exc_class, hx, unhx
 from .fstree import (FILE_MODES, collect_ids, count_nodes, enc_tree, gen_name, gen_tree, has_kind, materialise, shrink_tree,
                      subdirs)
 
@@ -21,21 +22,50 @@ THEOREMS = ["C13_empty_equiv", "C13_named_equiv", "C13_filtered_ids", "C13_prune
             "C13_root_kept", "C13_export_once", "C13_export_closed", "C13_export_ids", "C13_export_complete",
             "C13_export_dirs", "C13_prune_gen_instances", "C13_export_contents", "C13_export_skipped", "C13_skipped_iff", "C13_skip_same_ids",
             "C13_symlink_limit", "C13_satisfiable", "C13_export_checked",
-            "C13_export_objects_checked"]
+            "C13_export_objects_checked",
+            "C13_pattern_conservative", "C13_pattern_exact", "C13_pattern_equiv", "C13_pattern_ids", "C13_pattern_symlink_limit",
+            "C13_prune_pat_spec", "C13_pattern_two_pass", "C13_pattern_pass2_noop", "C13_pattern_pass2_refuted_old",
+            "C13_pattern_old_pass2_removes_every_directory", "C13_glob_facts", "C13_pattern_satisfiable", "C13_pattern_empty_list"]
 RULE = ("random file-system trees (depth <= 5, <= 60 nodes, files 0..100 bytes plus a couple of 1000-3000 byte ones) "
         "materialised in a temporary directory, seeded with: chains of directories that are empty only recursively, "
         "directories / files / symlinks named like the ignored names up to ASCII or non-ASCII case (Dir/dir/DIR, "
         "\\xc3\\x89 vs \\xc3\\xa9), copies of files and of whole sub-trees at several paths, long symlinks inside "
         "directories that the filter removes; crossed with filter in {none, ignore_empty_directories, "
-        "ignore_named_directories(names, case_sensitive)} and max_content_length in {None, 0, sizes of the files and "
-        "link texts present -1/+0/+1}; each case is read with the filter, read again unfiltered from a copy pruned by "
-        "an independent routine of the harness, read without limit, and exported with iter_directory and by hand "
-        "(lazy data); non-trivial = the filter removes something or a content is skipped or an object is deduplicated")
+        "ignore_named_directories(names, case_sensitive), ignore_directories_patterns(root, patterns)} and "
+        "max_content_length in {None, 0, sizes of the files and link texts present -1/+0/+1}; glob patterns are drawn from "
+        "the names and root-relative paths present in the tree (exact names, 'a/b' paths, '*/name', 'name*', '*suffix', '.*', "
+        "'*', '?' in place of a byte, bracket expressions '[a-c]*' / '[!.]*', patterns hitting files only or nothing, a "
+        "UTF-8 literal; relative or absolute = root + '/' + pattern); DEGENERATE FILTER ARGUMENTS are a deliberate share of the "
+        "cases for both ignore_directories_patterns and ignore_named_directories: the empty list, the empty string and '.' "
+        "as an item, duplicated items, exactly one item, 20+ items, and the argument passed as list / tuple / set / "
+        "frozenset / dict keys view and (patterns: Iterable[bytes]) a one-shot iterator or generator; the ROOT PATH is a case dimension for every filter "
+        "kind: absolute real path, 1-3 trailing slashes, relative to the working directory (with and without './'), "
+        "with '/./' and 'x/../' components, through a symbolic link to an ancestor directory (absolute or relative), the "
+        "root itself a symbolic link to the tree; the root_path given to ignore_directories_patterns is spelled like the "
+        "path given to from_disk or in another spelling of the same absolute path (absolute / relative / trailing slash "
+        "/ '/.'), never resolving symbolic links; each case is read with the filter, read again unfiltered from a copy "
+        "pruned by an independent routine of the harness (own glob matcher, fnmatch not used), read without limit, and "
+        "exported with iter_directory and by hand (lazy data); separate cases compare the model's glob matcher with "
+        "re.compile(fnmatch.translate(p)) on generated (pattern, text) pairs ('[' without ']', '!]', '[]..]', reversed "
+        "ranges, '-' first/last, runs of '*', UTF-8 literals, bytes >= 128 in the text); non-trivial = the filter removes "
+        "something or a content is skipped or an object is deduplicated (glob cases: both outcomes occur)")
 TRUSTED = ["the OS layer (scandir, lstat, readlink, mkfifo, chmod, open) is exercised, not modelled: the model receives the tree as data",
            "lib/Sha1.v as an instance of the hash oracle",
-           "the harness's own pruning routine and hashlib as the reference for 'a physically pruned copy' and for the four digests"]
+           "the harness's own pruning routine (with its own glob matcher) and hashlib as the reference for 'a physically pruned copy' and for the four digests",
+           "Python's fnmatch.translate / re are validated, not modelled: the model's glob matcher is compared with "
+           "re.compile(fnmatch.translate(p).encode()).match(text) on 2000 (quick) / 40000 (thorough) generated pattern/text pairs per run",
+           "os.path.abspath / relpath / join, glob.glob (the sanity check of extract_regex_objs) and the working directory are exercised, not modelled"]
 ASSUMPTIONS = ["names within a directory are distinct, non-empty, free of '/' and NUL (what a POSIX directory can hold)",
                "closure of the export is proved at the level of ids (an entry target is the id of an exported object), for every hash function",
+               "ignore_named_directories is given a list / tuple / set / frozenset of names (its docstring asks for a list); a "
+               "one-shot iterator is outside the checked domain (on the current code it is consumed by the first membership "
+               "test when case_sensitive=True - reported, not checked)",
+               "glob patterns: valid UTF-8 (possibly empty), bracket expressions ASCII-only, no '..' component, no trailing '/', no NUL; "
+               "entry names are never '.' or '..' (scandir does not list them); the root_path given to "
+               "ignore_directories_patterns and the path given to from_disk denote the same absolute path without resolving "
+               "symbolic links (a root reached through a link must be named through that link on both sides)",
+               "the literal stack/queue model (iterids) and the in-Coq extraction cross-check cover the name / emptiness "
+               "filters; the pattern filter goes through the two-predicate model from_disk_pat (both listing orders)",
                "eager vs lazy loading of content data, the sha1/sha256/blake2s256 digests and the `reason`/`status` fields are "
                "checked on the implementation only (the model carries the bytes and the sha1_git)"]
 
@@ -144,12 +174,106 @@ def _swapcase(b):
     return bytes(x + 32 if 65 <= x <= 90 else x - 32 if 97 <= x <= 122 else x for x in b)
 
 
+def _rel_paths(t, prefix=b"", acc=None):
+    """[(root-relative path, kind)] of every node below the root"""
+    acc = acc if acc is not None else []
+    if t["t"] == "D":
+        for n, c in t["c"]:
+            pth = prefix + b"/" + bytes.fromhex(n) if prefix else bytes.fromhex(n)
+            acc.append((pth, c["t"]))
+            _rel_paths(c, pth, acc)
+    return acc
+
+
+def _utf8_pattern(b):
+    """make a literal usable as a pattern: bytes that are not valid UTF-8 become '?' (one byte each); glob metacharacters
+    of a literal become '?' too (fnmatch has no quoting)"""
+    b = bytes(63 if x in b"*?[" else x for x in b)
+    try:
+        b.decode("utf-8")
+        return b
+    except UnicodeDecodeError:
+        return bytes(63 if x >= 128 else x for x in b)
+
+
+def gen_patterns(rng, t):
+    rels = _rel_paths(t)
+    names = [r.rsplit(b"/", 1)[-1] for r, _ in rels]
+    files = [r for r, k in rels if k != "D"]
+    dirs = [r for r, k in rels if k == "D"]
+    deep = [r for r, _ in rels if b"/" in r]
+    out = []
+    for _ in range(rng.randrange(1, 4)):
+        q = rng.randrange(14)
+        p = None
+        if q == 0 and names:
+            p = _utf8_pattern(rng.choice(names))                                   # exact name: matches at the top level only
+        elif q == 1 and rels:
+            p = _utf8_pattern(rng.choice(rels)[0])                                 # exact relative path (file or directory)
+        elif q == 2 and deep:
+            p = b"*/" + _utf8_pattern(rng.choice(deep).rsplit(b"/", 1)[-1])       # any depth >= 2
+        elif q == 3 and names:
+            n = rng.choice(names)
+            p = _utf8_pattern(n[:rng.randrange(1, len(n) + 1)]) + b"*"             # prefix
+        elif q == 4:
+            p = rng.choice([b".*", b"*", b"*/.*", b"?", b"??", b"*/*", b"*/*/*"])
+        elif q == 5 and names:
+            n = bytearray(_utf8_pattern(rng.choice(names)))
+            i = rng.randrange(len(n))
+            if n[i] < 128:
+                n[i] = 63
+            p = bytes(n)                                                           # '?' in place of one byte
+        elif q == 6:
+            p = rng.choice([b"[a-c]*", b"[!.]*", b"[abA]*", b"[!a-z]*", b"*[0-9]", b"[.-]*", b"*/[a-c]", b"[a-cA-C]?*", b"[!a]"])
+        elif q == 7 and files:
+            p = _utf8_pattern(rng.choice(files))                                   # a file only
+        elif q == 8 and files:
+            n = rng.choice(files).rsplit(b"/", 1)[-1]
+            p = b"*" + _utf8_pattern(n[-rng.randrange(1, min(3, len(n)) + 1):])    # suffix
+        elif q == 9:
+            p = rng.choice([b"zz-nothing", b"nothing/*", b"?" * 40, b"[z]zz"])     # matches nothing
+        elif q == 10:
+            p = rng.choice([b"\xc3\xa9*", b"*\xc3\xa9", b"*\xc3\xa9*", b"\xc3\x89t\xc3\xa9", b"??t\xc3\xa9", b"\xc3\xa9?*"])   # UTF-8 literal
+        elif q == 11 and dirs:
+            p = _utf8_pattern(rng.choice(dirs)) + b"/*"                            # everything below a directory, not the directory
+        elif q == 12 and names:
+            p = b"*" + _utf8_pattern(rng.choice(names)) + b"*"
+        elif q == 13 and dirs:
+            p = _utf8_pattern(rng.choice(dirs))
+        if p and b"\0" not in p and not p.endswith(b"/") and b".." not in p.split(b"/") and len(p) < 200:
+            out.append(p)
+    if not out:
+        out = [b".*"]
+    out = sorted(set(out))
+    # degenerate argument shapes, a deliberate share of the cases
+    r = rng.random()
+    if r < 0.10:
+        out = []                                                        # the empty list: excludes nothing
+    elif r < 0.17:
+        out = out + [rng.choice([b"", b"."])]                           # the empty pattern / ".": match nothing below the root
+    elif r < 0.21:
+        out = [rng.choice([b"", b"."])]
+    elif r < 0.29:
+        out = out + [rng.choice(out) for _ in range(rng.randrange(1, 4))]   # duplicates
+        rng.shuffle(out)
+    elif r < 0.36:
+        out = out[:1]                                                   # exactly one
+    elif r < 0.43:                                                      # 20+ patterns
+        extra = [_utf8_pattern(x) for x in names] + [b"none%d" % i for i in range(25)]
+        rng.shuffle(extra)
+        out = out + [x for x in extra if x and b"\0" not in x and b".." not in x.split(b"/") and len(x) < 200][:rng.randrange(20, 28)]
+    return {"pats": [x.hex() for x in out], "abs": [bool(x) and x != b"." and rng.random() < 0.2 for x in out],
+            "as": rng.choice(["list", "list", "tuple", "set", "frozenset", "iter", "gen", "dictkeys"])}
+
+
 def gen_filter(rng, t):
     r = rng.random()
-    if r < 0.2:
+    if r < 0.12:
         return "all"
-    if r < 0.55:
+    if r < 0.37:
         return "empty"
+    if r < 0.65:
+        return gen_patterns(rng, t)
     names = _all_names(t)
     pool = []
     for _ in range(rng.randrange(1, 4)):
@@ -160,7 +284,33 @@ def gen_filter(rng, t):
             pool.append(_swapcase(rng.choice(names)))
         else:
             pool.append(rng.choice(NAMED_POOL))
-    return {"named": sorted({p.hex() for p in pool if p}), "cs": rng.random() < 0.5}
+    pool = sorted({p for p in pool if p})
+    r = rng.random()
+    if r < 0.08:
+        pool = []                                                       # nothing is ignored
+    elif r < 0.14:
+        pool = pool + [b""]                                             # the empty name: no directory has it
+    elif r < 0.17:
+        pool = [b""]
+    elif r < 0.25:
+        pool = pool + [rng.choice(pool) for _ in range(rng.randrange(1, 4))]   # duplicates
+        rng.shuffle(pool)
+    elif r < 0.32:
+        pool = pool + [b"none%d" % i for i in range(rng.randrange(20, 28))]    # 20+ names
+    # no one-shot iterator here: the docstring asks for a list of names (see the note in ASSUMPTIONS)
+    return {"named": [p.hex() for p in pool], "cs": rng.random() < 0.5, "as": rng.choice(["list", "list", "tuple", "set", "frozenset"])}
+
+
+ROOT_SHAPES = ["real", "slash1", "slash3", "rel", "reldot", "dot", "dotdot", "vialink", "vialink_rel", "vialink_abs", "rootlink", "rootlink_abs"]
+FSPELLS = ["same", "abs", "slash", "rel", "dotted"]
+
+
+def gen_root(rng, flt):
+    """(shape of the path given to from_disk, spelling of the root_path given to ignore_directories_patterns)"""
+    pat = isinstance(flt, dict) and "pats" in flt
+    shape = "real" if rng.random() < (0.35 if pat else 0.7) else rng.choice(ROOT_SHAPES[1:])
+    spell = "same" if (not pat or rng.random() < 0.55) else rng.choice(FSPELLS[1:])
+    return shape, spell
 
 
 def gen_limit(rng, t):
@@ -208,6 +358,36 @@ FIXED = [
     {"tree": D((b"dir", R(b"file named dir")), (b"Dir", L(b"dir")), (b"x", D((b"dir", D((b"f", R(b"1"))))))),
      "filter": {"named": [b"dir".hex()], "cs": False}, "limit": None},                       # files / links named like it stay
     {"tree": D(), "filter": "empty", "limit": None},
+    # glob exclusion patterns
+    {"tree": D((b".git", D((b"x", R(b"ref")))), (b"src", D((b"a", R(b"int main;")), (b".hidden", R(b"h")))), (b"README", R(b"hello"))),
+     "filter": {"pats": [b".*".hex()], "abs": [False]}, "limit": None},                     # anchored: src/.hidden stays; src/ stays
+    {"tree": D((b"src", D((b"main.c", R(b"int main(){}")), (b"build", D((b"keep.txt", R(b"nested")))))), (b"build", D((b"out.o", R(b"ELF")), (b"sub", D((b"x", R(b"x")))))),
+               (b"node_modules", D((b"m", D((b"index.js", R(b"//")))))), (b"README", R(b"hello"))),
+     "filter": {"pats": [b"build".hex(), b"node_*".hex()], "abs": [False, False]}, "limit": None, "root": "vialink", "fspell": "same"},
+    {"tree": D((b"b", D((b"k", R(b"1")))), (b"a", D((b"b", D((b"k", R(b"2")))), (b"c", R(b"3"))))),
+     "filter": {"pats": [b"*/b".hex()], "abs": [False]}, "limit": None, "root": "rel", "fspell": "abs"},   # a/b goes, the top-level b stays
+    {"tree": D((b"a", R(b"0123456789")), (b"l", L(b"0123456789")), (b"d", D((b"l2", L(b"01234567890123")), (b"f", R(b"x"))))),
+     "filter": {"pats": [b"l".hex(), b"d/l?".hex()], "abs": [False, True]}, "limit": 9, "root": "rootlink", "fspell": "slash"},   # excluded links are not read
+    {"tree": D((b"a", R(b"0123456789")), (b"d", D((b"l2", L(b"01234567890123")), (b"f", R(b"x"))))),
+     "filter": {"pats": [b"d/f".hex()], "abs": [False]}, "limit": 9, "root": "dotdot", "fspell": "rel"},     # the long link is read: raises
+    {"tree": D((b"a.c", R(b"1")), (b"b.c", D((b"x.c", R(b"2")), (b"y", R(b"3")))), (b"\xc3\xa9t\xc3\xa9", D((b"k", R(b"4")))), (b"\xff\xfe", D((b"k", R(b"5"))))),
+     "filter": {"pats": [b"*.c".hex(), b"\xc3\xa9*".hex(), b"??".hex()], "abs": [False, False, False]}, "limit": None, "root": "slash3", "fspell": "dotted"},
+    {"tree": D((b"x", D((b"y", D((b"z", D()))))), (b"e", D())), "filter": "empty", "limit": None, "root": "vialink_rel"},
+    # degenerate filter arguments
+    {"tree": D((b"a", D((b"f", R(b"x")))), (b"g", R(b"y"))), "filter": {"pats": [], "abs": []}, "limit": None},            # excludes nothing
+    {"tree": D((b"a", D((b"f", R(b"x")))), (b"g", R(b"y"))), "filter": {"pats": [], "abs": [], "as": "gen"}, "limit": 0, "root": "rel"},
+    {"tree": D((b"a", D((b"f", R(b"x")))), (b"g", R(b"y"))), "filter": {"pats": ["", b".".hex()], "abs": [False, False]}, "limit": None},
+    {"tree": D((b"a", D((b"f", R(b"x")))), (b"g", R(b"y"))), "filter": {"pats": [b"a".hex()] * 3 + [b"g".hex()] * 2, "abs": [False] * 5, "as": "iter"},
+     "limit": None},
+    {"tree": D((b"a", D((b"f", R(b"x")), (b"n7", D()))), (b"n3", R(b"y"))),
+     "filter": {"pats": [(b"n%d" % i).hex() for i in range(24)] + [b"*/n7".hex()], "abs": [False] * 25, "as": "frozenset"}, "limit": None},
+    {"tree": D((b"a", D((b"f", R(b"x")))), (b"g", R(b"y"))), "filter": {"pats": [b"a/f".hex()], "abs": [True], "as": "dictkeys"}, "limit": None},
+    {"tree": D((b"a", D((b"f", R(b"x")))), (b"g", D())), "filter": {"named": [], "cs": True}, "limit": None},
+    {"tree": D((b"a", D((b"f", R(b"x")))), (b"g", D())), "filter": {"named": [], "cs": False, "as": "tuple"}, "limit": None},
+    {"tree": D((b"a", D((b"f", R(b"x")))), (b"g", D())), "filter": {"named": [""], "cs": False}, "limit": None},
+    {"tree": D((b"a", D((b"A", D((b"f", R(b"x")))))), (b"g", D())), "filter": {"named": [b"A".hex()] * 3 + [b"g".hex()], "cs": False, "as": "set"}, "limit": None},
+    {"tree": D((b"a", D((b"A", D((b"f", R(b"x")))))), (b"g", D())), "filter": {"named": [b"A".hex(), b"A".hex()], "cs": True, "as": "frozenset"}, "limit": None},
+    {"tree": D((b"dir", D((b"k", R(b"x")))), (b"Dir", D((b"k", R(b"x"))))), "filter": {"named": [b"dir".hex()], "cs": True}, "limit": None, "root": "rootlink_abs"},
 ]
 
 
@@ -216,8 +396,71 @@ def gen(rng, tier):
     cases = [copy.deepcopy(c) for c in FIXED]
     for k in range(n):
         t = gen_case_tree(rng, big=(k % 30 == 7))
-        cases.append({"tree": t, "filter": gen_filter(rng, t), "limit": gen_limit(rng, t)})
+        flt = gen_filter(rng, t)
+        shape, spell = gen_root(rng, flt)
+        cases.append({"tree": t, "filter": flt, "limit": gen_limit(rng, t), "root": shape, "fspell": spell})
+    for k in range(20 if tier == "quick" else 400):
+        cases.insert(len(FIXED) + k * (len(cases) // (25 if tier == "quick" else 420)), gen_glob_case(rng))
     return cases
+
+
+# ------------------------------------------------------------------ glob validation cases (model vs fnmatch.translate + re)
+GLOB_ALPHA = b"ab.-!]^[*?/\\x~&|c0"
+
+
+def _gen_glob_pattern(rng):
+    out = b""
+    classes = False
+    for _ in range(rng.randrange(0, 8)):
+        r = rng.random()
+        if r < 0.35:
+            body = bytes(rng.choice(b"abc-!]^[.\\&~|xz09") for _ in range(rng.randrange(0, 6)))
+            out += b"[" + body + (b"]" if rng.random() < 0.85 else b"")
+            classes = True
+        elif r < 0.45:
+            out += b"*" * rng.randrange(1, 4)
+        else:
+            ch = rng.choice(GLOB_ALPHA)
+            classes = classes or ch == 91
+            out += bytes([ch])
+    if not classes and rng.random() < 0.3:      # a UTF-8 literal, only where no bracket expression can swallow it
+        i = rng.randrange(len(out) + 1)
+        out = out[:i] + b"\xc3\xa9" + out[i:]
+    return out
+
+
+def _gen_glob_text(rng, p):
+    if rng.random() < 0.55:
+        t = b""
+        for ch in p:
+            if ch == 42:
+                t += bytes(rng.choice(b"ab/.") for _ in range(rng.randrange(0, 3)))
+            elif ch == 63:
+                t += bytes([rng.choice(b"ab/.\xc3\xa9\xff")])
+            elif ch in b"[]!" and rng.random() < 0.5:
+                t += bytes([rng.choice(b"abc-!]^[.xz0\\")])
+            else:
+                t += bytes([ch])
+        if rng.random() < 0.15:
+            t += bytes([rng.choice(b"a/\n")])
+        return t
+    return bytes(rng.choice(b"ab.-!]^[/cxz09\\&~|\n\xc3\xa9\x80") for _ in range(rng.randrange(0, 7)))
+
+
+def gen_glob_case(rng):
+    pairs = []
+    for _ in range(100):
+        p = _gen_glob_pattern(rng)
+        pairs.append([hx(p), hx(_gen_glob_text(rng, p))])
+    return {"kind": "glob", "pairs": pairs}
+
+
+def _is_glob(c):
+    return c.get("kind") == "glob"
+
+
+def _is_pat(flt):
+    return isinstance(flt, dict) and "pats" in flt
 
 
 # ------------------------------------------------------------------ independent reference: prune the JSON tree
@@ -232,10 +475,86 @@ def _ignored(name, flt):
     return _fold(name) in [_fold(x) for x in names]
 
 
+def _parse_simple_glob(p):
+    """independent of fnmatch and of the Coq model; handles the well-formed patterns the TREE generators emit:
+    '*', '?', literals, and closed bracket expressions '[' '!'? (char | lo-hi)+ ']' over plain ASCII characters"""
+    out, i = [], 0
+    while i < len(p):
+        ch = p[i]
+        if ch == 42:
+            out.append(("star",))
+            i += 1
+        elif ch == 63:
+            out.append(("any",))
+            i += 1
+        elif ch == 91:
+            j = p.find(b"]", i + 1)
+            body = p[i + 1:j]
+            if j < 0 or not body or body == b"!":
+                raise ValueError("harness: unsupported bracket expression in %r" % p)
+            neg = body[:1] == b"!"
+            body = body[1:] if neg else body
+            allowed, k = set(), 0
+            while k < len(body):
+                if body[k] >= 128 or body[k] in b"]![^\\&~|":
+                    raise ValueError("harness: unsupported bracket expression in %r" % p)
+                if k + 2 < len(body) and body[k + 1] == 45:
+                    if body[k] > body[k + 2]:
+                        raise ValueError("harness: reversed range in %r" % p)
+                    allowed.update(range(body[k], body[k + 2] + 1))
+                    k += 3
+                else:
+                    if body[k] == 45 and 0 < k < len(body) - 1:
+                        raise ValueError("harness: ambiguous '-' in %r" % p)
+                    allowed.add(body[k])
+                    k += 1
+            out.append(("set", neg, frozenset(allowed)))
+            i = j + 1
+        else:
+            out.append(("lit", ch))
+            i += 1
+    return out
+
+
+def simple_glob_match(p, text):
+    """whole-text match; set-of-positions simulation (no backtracking, no regex)"""
+    pos = {0}
+    for el in _parse_simple_glob(p):
+        if el[0] == "star":
+            pos = set(range(min(pos), len(text) + 1)) if pos else set()
+        else:
+            nxt = set()
+            for i in pos:
+                if i < len(text):
+                    b = text[i]
+                    if el[0] == "any" or (el[0] == "lit" and b == el[1]) or (el[0] == "set" and ((b in el[2]) != el[1])):
+                        nxt.add(i + 1)
+            pos = nxt
+    return len(text) in pos
+
+
+def _pat_excluded(rel, flt):
+    return any(simple_glob_match(bytes.fromhex(x), rel) for x in flt["pats"])
+
+
+def _prune_pats(t, flt, prefix=b""):
+    if t["t"] != "D":
+        return t
+    kids = []
+    for n, c in t["c"]:
+        rel = prefix + b"/" + bytes.fromhex(n) if prefix else bytes.fromhex(n)
+        if not _pat_excluded(rel, flt):
+            kids.append([n, _prune_pats(c, flt, rel)])
+    return {"t": "D", "c": kids}
+
+
 def prune_tree(t, flt):
-    """the tree with the filtered directories physically removed (the root is never removed)"""
+    """the tree with the filtered directories physically removed (the root is never removed); for glob patterns every
+    entry - file or directory - whose root-relative path matches is removed"""
     if t["t"] != "D" or flt == "all":
         return t
+    if _is_pat(flt):
+        return _prune_pats(t, flt)
     kids = []
     for n, c in t["c"]:
         if c["t"] != "D":
@@ -264,6 +583,8 @@ def _git_blob(data):
 
 
 def nontrivial(c):
+    if _is_glob(c):
+        return len(c["pairs"]) >= 10
     t, flt, lim = c["tree"], c["filter"], c["limit"]
     if prune_tree(t, flt) != t:
         return True
@@ -275,8 +596,25 @@ def nontrivial(c):
 
 
 def classify(c):
+    if _is_glob(c):
+        return ["glob-pairs"]
     t, flt, lim = c["tree"], c["filter"], c["limit"]
-    ks = ["filter=" + (flt if isinstance(flt, str) else "named-cs" if flt["cs"] else "named-ci")]
+    ks = ["filter=" + (flt if isinstance(flt, str) else "patterns" if _is_pat(flt) else "named-cs" if flt["cs"] else "named-ci")]
+    ks.append("root=" + c.get("root", "real"))
+    if _is_pat(flt):
+        ks.append("root_path-spelling=" + c.get("fspell", "same"))
+        if any(flt.get("abs", [])):
+            ks.append("absolute-pattern")
+        if any(_only_files(t, x) for x in flt["pats"]):
+            ks.append("pattern-matches-a-file")
+    if isinstance(flt, dict):
+        items = flt["pats"] if _is_pat(flt) else flt["named"]
+        ks.append("filter-arg=" + flt.get("as", "list"))
+        ks.append("filter-items=" + ("0" if not items else "1" if len(items) == 1 else "2-19" if len(items) < 20 else ">=20"))
+        if len(set(items)) < len(items):
+            ks.append("filter-items-duplicated")
+        if "" in items:
+            ks.append("filter-item-empty-string")
     ks.append("limit=" + ("none" if lim is None else "0" if lim == 0 else "n"))
     p = prune_tree(t, flt)
     ks.append("pruned" if p != t else "nothing-pruned")
@@ -290,14 +628,46 @@ def classify(c):
     return ks
 
 
+def _only_files(t, pat_hex):
+    """does this pattern exclude a non-directory?"""
+    p = bytes.fromhex(pat_hex)
+    return any(k != "D" and simple_glob_match(p, r) for r, k in _rel_paths(t))
+
+
 # ------------------------------------------------------------------ implementation
-def _mk_filter(flt):
+def _container(items, kind):
+    """the argument as the caller may build it: ignore_directories_patterns takes Iterable[bytes] (a one-shot iterable
+    must work), ignore_named_directories a collection of names"""
+    if kind == "tuple":
+        return tuple(items)
+    if kind == "set":
+        return set(items)
+    if kind == "frozenset":
+        return frozenset(items)
+    if kind == "iter":
+        return iter(list(items))
+    if kind == "gen":
+        return (x for x in list(items))
+    if kind == "dictkeys":
+        return dict.fromkeys(items).keys()
+    return list(items)
+
+
+def _mk_filter(flt, root_spelled=None, root_abs=None):
     from swh.model import from_disk
     if flt == "all":
         return from_disk.accept_all_paths
     if flt == "empty":
         return from_disk.ignore_empty_directories
-    return from_disk.ignore_named_directories([bytes.fromhex(x) for x in flt["named"]], case_sensitive=flt["cs"])
+    if _is_pat(flt):
+        pats = []
+        for x, a in zip(flt["pats"], flt.get("abs") or [False] * len(flt["pats"])):
+            pats.append(root_abs + b"/" + bytes.fromhex(x) if a else bytes.fromhex(x))
+        with warnings.catch_warnings():
+            warnings.simplefilter("ignore")
+            return from_disk.ignore_directories_patterns(root_spelled, _container(pats, flt.get("as", "list")))
+    return from_disk.ignore_named_directories(_container([bytes.fromhex(x) for x in flt["named"]], flt.get("as", "list")),
+                                              case_sensitive=flt["cs"])
 
 
 def _digests(data):
@@ -381,25 +751,82 @@ def _export_facts(d, expected, limit):
     return sorted(out), bad
 
 
+def _layout(tmp, shape, t):
+    """materialise t under tmp in the given shape (the working directory is tmp); returns the path to give from_disk"""
+    root = os.path.join(tmp, b"root")
+    if shape.startswith("vialink"):
+        os.mkdir(os.path.join(tmp, b"real"))
+        materialise(t, os.path.join(tmp, b"real", b"root"))
+        os.symlink(os.path.join(tmp, b"real") if shape == "vialink_abs" else b"real", os.path.join(tmp, b"link"))
+        return b"link/root" if shape == "vialink_rel" else os.path.join(tmp, b"link", b"root")
+    if shape.startswith("rootlink"):
+        materialise(t, os.path.join(tmp, b"real_root"))
+        os.symlink(os.path.join(tmp, b"real_root") if shape == "rootlink_abs" else b"real_root", root)
+        return root
+    materialise(t, root)
+    if shape == "slash1":
+        return root + b"/"
+    if shape == "slash3":
+        return root + b"///"
+    if shape == "rel":
+        return b"root"
+    if shape == "reldot":
+        return b"./root"
+    if shape == "dot":
+        return tmp + b"/./root"
+    if shape == "dotdot":
+        os.mkdir(os.path.join(tmp, b"x"))
+        return tmp + b"/x/../root"
+    return root
+
+
+def _spell(path, tmp, spell):
+    """another spelling of the same absolute path, links not resolved (what os.path.abspath keeps)"""
+    lexical = os.path.normpath(path if path.startswith(b"/") else os.path.join(tmp, path))
+    if spell == "same":
+        return path, lexical
+    if spell == "abs":
+        return lexical, lexical
+    if spell == "slash":
+        return path + b"/", lexical
+    if spell == "rel":
+        return lexical[len(tmp) + 1:], lexical
+    return lexical + b"/.", lexical
+
+
 def impl(c):
+    if _is_glob(c):
+        import fnmatch
+        import re
+        out = []
+        with warnings.catch_warnings():
+            warnings.simplefilter("ignore")
+            for ph, th in c["pairs"]:
+                try:
+                    out.append(1 if re.compile(fnmatch.translate(unhx(ph).decode()).encode()).match(unhx(th)) else 0)
+                except Exception as e:
+                    out.append("error:" + exc_class(e))
+        return {"glob": out}
     from swh.model.from_disk import Directory
     res = {}
     t, flt, lim = c["tree"], c["filter"], c["limit"]
     tmp = tempfile.mkdtemp(prefix="swhv13").encode()
+    cwd = os.getcwd()
     try:
-        root = os.path.join(tmp, b"root")
-        materialise(t, root)
+        os.chdir(tmp)
+        root = _layout(tmp, c.get("root", "real"), t)
+        spelled, lexical = _spell(root, tmp, c.get("fspell", "same"))
         pruned = prune_tree(t, flt)
         proot = os.path.join(tmp, b"pruned")
         materialise(pruned, proot)
         try:
-            d = Directory.from_disk(path=root, path_filter=_mk_filter(flt), max_content_length=lim)
+            d = Directory.from_disk(path=root, path_filter=_mk_filter(flt, spelled, lexical), max_content_length=lim)
         except Exception as e:
             res["error"] = exc_class(e)
             res["symlink_msg"] = str(e).startswith("Symlink too large")
             d = None
         try:
-            d0 = Directory.from_disk(path=root, path_filter=_mk_filter(flt))
+            d0 = Directory.from_disk(path=root, path_filter=_mk_filter(flt, spelled, lexical))
             res["ids_nolimit"] = {hx(k): v for k, v in collect_ids(d0).items()}
             dp = Directory.from_disk(path=proot)
             res["ids_pruned_copy"] = {hx(k): v for k, v in collect_ids(dp).items()}
@@ -418,6 +845,7 @@ def impl(c):
             except Exception as e:
                 res["export_error"] = exc_class(e) + ":" + str(e)[:80]
     finally:
+        os.chdir(cwd)
         shutil.rmtree(tmp, ignore_errors=True)
     return res
 
@@ -426,13 +854,22 @@ def impl(c):
 def enc_filter(flt):
     if isinstance(flt, str):
         return flt
-    return "named:%d:%s" % (1 if flt["cs"] else 0, ",".join(flt["named"]))
+    if _is_pat(flt):
+        return "pat:" + ",".join(x or "." for x in flt["pats"])
+    return "named:%d:%s" % (1 if flt["cs"] else 0, ",".join(x or "." for x in flt["named"]))
 
 
 def requests(c):
+    if _is_glob(c):
+        return ["glob %s %s" % (ph, th) for ph, th in c["pairs"]]
     t = enc_tree(c["tree"])
     f = enc_filter(c["filter"])
     lim = "-" if c["limit"] is None else str(c["limit"])
+    if _is_pat(c["filter"]):
+        # the literal stack/queue model does not take the pattern filter: the fifth request is the two-predicate model
+        # again, with the listing reversed
+        return ["ids %s %s id %s" % (f, lim, t), "ids %s - rev %s" % (f, t), "pruned %s %s" % (f, t), "export %s %s %s" % (f, lim, t),
+                "ids %s %s rev %s" % (f, lim, t)]
     # the last request goes through the literal stack/queue model (from_disk_iter) with the listing reversed
     return ["ids %s %s id %s" % (f, lim, t), "ids %s - rev %s" % (f, t), "pruned %s %s" % (f, t), "export %s %s %s" % (f, lim, t),
             "iterids %s %s rev %s" % (f, lim, t)]
@@ -445,6 +882,8 @@ def _ids(r):
 
 
 def model(c, resp):
+    if _is_glob(c):
+        return {"glob": [int(r[3:]) if r in ("ok 0", "ok 1") else r for r in resp]}
     res = {"ids": _ids(resp[0]), "ids_nolimit_rev": _ids(resp[1]), "pruned_root": resp[2][3:] if resp[2].startswith("ok ") else resp[2],
            "iterids": _ids(resp[4])}
     r = resp[3]
@@ -484,10 +923,20 @@ def _symlink_should_raise(c):
                 if walk(ch):
                     return True
         return False
+    if _is_pat(flt):        # excluded entries - links included - are never read
+        return _long_link(prune_tree(c["tree"], flt), lim)
     return walk(c["tree"])
 
 
+def _long_link(t, lim):
+    if t["t"] == "L":
+        return len(t["x"]) // 2 > lim
+    return t["t"] == "D" and any(_long_link(ch, lim) for _, ch in t["c"])
+
+
 def oracle(c, ires, mres):
+    if _is_glob(c):
+        return None         # fnmatch / re are the standard library: disagreement is a model-validation failure (compare)
     if "error2" in ires:
         return "reading without limit / reading the pruned copy raised " + ires["error2"]
     should = _symlink_should_raise(c)
@@ -511,6 +960,11 @@ def oracle(c, ires, mres):
 
 
 def compare(c, ires, mres):
+    if _is_glob(c):
+        for (ph, th), a, b in zip(c["pairs"], ires["glob"], mres["glob"]):
+            if a != b:
+                return "glob model disagrees with fnmatch.translate+re: pattern %r text %r: re says %s, model says %s" % (unhx(ph), unhx(th), a, b)
+        return None
     if mres["iterids"] != mres["ids"]:
         return "MODEL: the literal stack/queue model (from_disk_iter) and the recursive model disagree (model bug): %s" % str(mres["iterids"])[:60]
     if isinstance(mres.get("ids_nolimit_rev"), str):
@@ -542,17 +996,39 @@ def compare(c, ires, mres):
 
 
 def shrink(c):
+    if _is_glob(c):
+        n = len(c["pairs"])
+        if n > 1:
+            yield dict(c, pairs=c["pairs"][:n // 2])
+            yield dict(c, pairs=c["pairs"][n // 2:])
+        return
     for t in shrink_tree(c["tree"]):
         yield dict(c, tree=t)
+    if c.get("fspell", "same") != "same":
+        yield dict(c, fspell="same")
+    if _is_pat(c["filter"]):
+        f = c["filter"]
+        if any(f.get("abs", [])):
+            yield dict(c, filter=dict(f, abs=[False] * len(f["pats"])))
+        if len(f["pats"]) > 1:
+            for i in range(len(f["pats"])):
+                yield dict(c, filter=dict(f, pats=f["pats"][:i] + f["pats"][i + 1:],
+                                          abs=(f.get("abs") or [False] * len(f["pats"]))[:i] + (f.get("abs") or [False] * len(f["pats"]))[i + 1:]))
+    if c.get("root", "real") not in ("real",):
+        yield dict(c, root="real")
+    if isinstance(c["filter"], dict) and c["filter"].get("as", "list") != "list":
+        yield dict(c, filter=dict(c["filter"], **{"as": "list"}))
     if c["limit"] is not None:
         yield dict(c, limit=None)
-    if isinstance(c["filter"], dict) and len(c["filter"]["named"]) > 1:
+    if isinstance(c["filter"], dict) and "named" in c["filter"] and len(c["filter"]["named"]) > 1:
         for i in range(len(c["filter"]["named"])):
             yield dict(c, filter=dict(c["filter"], named=c["filter"]["named"][:i] + c["filter"]["named"][i + 1:]))
 
 
 # functions of /repo whose executed-line coverage by this run is reported in the evidence
-ANCHORS = [('swh/model/from_disk.py', 'ignore_empty_directories'),
+ANCHORS = [('swh/model/from_disk.py', 'ignore_directories_patterns'),
+           ('swh/model/from_disk.py', 'extract_regex_objs'),
+           ('swh/model/from_disk.py', 'ignore_empty_directories'),
            ('swh/model/from_disk.py', 'ignore_named_directories'),
            ('swh/model/from_disk.py', 'Directory.from_disk'),
            ('swh/model/from_disk.py', 'iter_directory'),
@@ -573,6 +1049,7 @@ def coq_cases(cases):
     prune_named + node_id, export and mt_id with H := Sha1.sha1 evaluated by vm_compute inside Coq vs the extracted driver,
     on small trees: the hand-written FIXED cases and the first small generated ones (extraction cross-check)"""
     from .c06 import coq_from_disk, coq_tree_bytes
-    small = [c for c in cases if count_nodes(c["tree"]) <= 10 and coq_tree_bytes(c["tree"]) <= 400][:16]
+    small = [c for c in cases if not _is_glob(c) and not _is_pat(c["filter"])
+             and count_nodes(c["tree"]) <= 10 and coq_tree_bytes(c["tree"]) <= 400][:16]
     cases[:] = small
     return coq_from_disk(ID, [(c, requests(c)) for c in small])
